@@ -1074,7 +1074,9 @@ func scenarioInterrupt(seed int64, idx int) ScenarioOut {
 		return s.out("interrupt", false)
 	}
 	// payments that end up below the cut, then fillers
-	for k := 0; k < 60+idx*7; k++ {
+	// 150 fillers, three payments, 1010 fillers: the cut lies 1000 vertices below the tip, so the payments sit about ten vertices
+	// below the cut - among the first vertices the abandoned run checkpoints
+	for k := 0; k < 150; k++ {
 		t := craftTrx(s.recvRich, w.wallets[5].Address(), "f", []byte("n"), spice.Melange{}, s.now())
 		n.createQuiet(&t)
 	}
@@ -1082,7 +1084,7 @@ func scenarioInterrupt(seed int64, idx int) ScenarioOut {
 		t := craftTrx(s.recvRich, u.Address(), "pay", nil, spice.Melange{Currency: uint64(5 + k), SupplementaryCurrency: uint64(1 + k)}, s.now())
 		n.createQuiet(&t)
 	}
-	for k := 0; k < 1100; k++ {
+	for k := 0; k < 1010; k++ {
 		t := craftTrx(s.recvRich, w.wallets[5].Address(), "f", []byte("n"), spice.Melange{}, s.now())
 		n.createQuiet(&t)
 	}
@@ -1098,6 +1100,11 @@ func scenarioInterrupt(seed int64, idx int) ScenarioOut {
 		for a, b0 := range o0 {
 			if o1[a] != b0 {
 				what := fmt.Sprintf("wallet %d: %s before, %s %s (value/error)", w.A(a), b0, o1[a], when)
+				if len(b0) > 5 && b0[len(b0)-5:] == "/true" && o1[a] == "0.0/false" {
+					// the query failed before (negative sum: the genesis issuer) and reports 0.0 once a truncation completed: the known finding
+					n.violate("C07", "overdrawn-wallet-reset-by-truncation", what)
+					continue
+				}
 				n.violate("C06", "balance-changed-around-interrupted-truncation", what)
 				n.violate("C07", "balance-changed-around-interrupted-truncation", what)
 			}
